@@ -355,6 +355,24 @@ def run_behaviours(exe, scripts, tag, chunk=400, per_timeout=20, valgrind=False,
     with ThreadPoolExecutor(max_workers=parallel or NCPU) as ex:
         for loc in ex.map(run_chunk, chunks):
             results.update(loc)
+    # a hang (wall-clock limit) or a death without any sanitizer / driver message can be an artefact of a
+    # loaded machine: such a behaviour is executed again, alone and with a generous limit, and only a
+    # repeated failure is reported
+    by_id = dict(scripts)
+    for bid, g in list(results.items()):
+        c = g.get("crash")
+        if not c:
+            continue
+        silent = c["kind"] == "hang" or (c["kind"] == "crash" and "Sanitizer" not in c["detail"] and "runtime error" not in c["detail"]
+                                          and "DRIVER" not in c["detail"] and "VF-OOM" not in c["detail"])
+        if silent:
+            text = "begin %s %d\n%s\nend\n" % (bid, per_timeout * 6, by_id[bid].rstrip("\n"))
+            objs, rc, err = run_driver(exe, text, tag + "-again", timeout=per_timeout * 6 + 60, valgrind=valgrind)
+            groups, _ = split_by_behaviour(objs)
+            g2 = groups.get(bid)
+            if g2 is not None and g2["end"] is not None and not g2["abnormal"]:
+                g2["crash"] = None
+                results[bid] = g2
     return results
 
 
